@@ -215,6 +215,19 @@ Definition _new_pathtail (st : rd) : Z := new_pathtail_from (S (length (by_path 
 
 Definition IMMUTABLE_PARAMETERS := ["ep"; "d"; "proxy"]%string.
 
+(* the parameter handling of initialize_endpoint (rd.py:314-342) as a function of the query alone:
+   key, static (immutable) parameters, remaining parameters *)
+Definition registration_request (q : query) : M (key * query * query) :=
+  let static := filter (fun kv => in_strs (fst kv) IMMUTABLE_PARAMETERS) q in
+  '(q1, ep) <- pop_single_arg q "ep" ;;
+  match ep with None => Raise BadRequest | Some ep =>
+  '(q2, d) <- pop_single_arg q1 "d" ;;
+  '(q3, proxy) <- pop_single_arg q2 "proxy" ;;
+  if match proxy with Some p => negb (in_strs p ["on"; "yes"; "ondemand"]%string) | None => false end then Raise BadRequest
+  else if dmem String.eqb static "proxy" then Raise BadRequest
+  else Ok ((ep, d), ddel String.eqb static "proxy", q3)
+  end.
+
 (* initialize_endpoint rd.py:310-412 (proxy_domain = None) *)
 Definition initialize_endpoint (st : rd) (remote_uri : ostr) (q : query) : rd * M Z :=
   let static := filter (fun kv => in_strs (fst kv) IMMUTABLE_PARAMETERS) q in
@@ -296,54 +309,41 @@ Definition make_matcher (search_value : ostr) : matcher :=
   | Some s => if ends_with_star s then MPrefix (drop_last s) else MEq (Some s)
   | None => MEq None
   end.
-Fixpoint any_m {A} (f : A -> M bool) (l : list A) : M bool :=
-  match l with [] => Ok false | x :: r => b <- f x ;; if b then Ok true else any_m f r end.
-Definition or_m (a : M bool) (b : M bool) : M bool := x <- a ;; if x then Ok true else b.
-Definition base_match (m : matcher) (x : ostr) : M bool :=
+(* the matchers never raise (since 5a5d1e7: `x is not None and ...`), so they are plain boolean functions *)
+Definition base_match (m : matcher) (x : ostr) : bool :=
   match m with
-  | MPrefix s => match x with None => Ok false (* x is not None and ... *) | Some xs => Ok (String.prefix s xs) end
-  | MEq v => Ok (ostr_eqb x v)
+  | MPrefix s => match x with None => false | Some xs => String.prefix s xs end
+  | MEq v => ostr_eqb x v
   end.
-(* [split] : the matcher was defined while search_key was "if" or "rt" *)
-Definition matches (m : matcher * bool) (x : ostr) : M bool :=
-  if snd m then match x with None => Ok false | Some xs => any_m (fun v => base_match (fst m) (Some v)) (split_ws xs) end
+(* [snd m] : the matcher was defined while search_key was "if" or "rt" (any whitespace-separated token may match) *)
+Definition matches (m : matcher * bool) (x : ostr) : bool :=
+  if snd m then match x with None => false | Some xs => existsb (fun v => base_match (fst m) (Some v)) (split_ws xs) end
   else base_match (fst m) x.
-Definition _link_matches (l : link) (k : string) (m : matcher * bool) : M bool :=
-  any_m (fun kv => if String.eqb (fst kv) k then matches m (snd kv) else Ok false) (l_attrs l).
-Definition params_match (r : reg) (k : string) (m : matcher * bool) : M bool :=
-  match dget String.eqb (r_params r) k with Some vs => any_m (matches m) vs | None => Ok false end.
+Definition _link_matches (l : link) (k : string) (m : matcher * bool) : bool :=
+  existsb (fun kv => String.eqb (fst kv) k && matches m (snd kv)) (l_attrs l).
+Definition params_match (r : reg) (k : string) (m : matcher * bool) : bool :=
+  match dget String.eqb (r_params r) k with Some vs => existsb (matches m) vs | None => false end.
 
-(* The filter generators are created once per (key, value) with key not in (page, count), in order; their bodies
-   read [search_key] and [matches] when the list is finally built, i.e. the values those variables hold after the
-   loop (Python closures are late-binding): [search_key] = the last key of the query, [matches] = the last one defined. *)
-Inductive stage := SHref | SGeneric.
+(* One filter per (key, value) with key not in (page, count), in query order; since 212d645 each `keep` function binds its own
+   search_key and matches, so the chain of filter() objects keeps a candidate iff every criterion holds. *)
 Definition is_paging (k : string) : bool := in_strs k ["page"; "count"]%string.
-Definition stages_of (q : query) : list stage :=
-  flat_map (fun kv => if is_paging (fst kv) then [] else map (fun _ => if String.eqb (fst kv) "href" then SHref else SGeneric) (snd kv)) q.
-Definition final_key (q : query) : string := match rev q with kv :: _ => fst kv | [] => EmptyString end.
-Definition final_matcher (q : query) : matcher * bool :=
-  match rev (filter (fun kv => negb (is_paging (fst kv))) q) with
-  | kv :: _ => (make_matcher (last (snd kv) None), in_strs (fst kv) ["if"; "rt"]%string)
-  | [] => (MEq None, false)
-  end.
-
-Fixpoint filter_m {A} (f : A -> M bool) (l : list A) : M (list A) :=
-  match l with [] => Ok [] | x :: r => b <- f x ;; rest <- filter_m f r ;; Ok (if b then x :: rest else rest) end.
-Fixpoint all_stages {A} (f : stage -> A -> M bool) (ss : list stage) (x : A) : M bool :=
-  match ss with [] => Ok true | s :: r => b <- f s x ;; if b then all_stages f r x else Ok false end.
+Record crit := { c_key : string; c_m : matcher * bool; c_href : bool }.
+Definition criteria_of (q : query) : list crit :=
+  flat_map (fun kv => if is_paging (fst kv) then []
+                      else map (fun v => {| c_key := fst kv; c_m := (make_matcher v, in_strs (fst kv) ["if"; "rt"]%string);
+                                            c_href := String.eqb (fst kv) "href" |}) (snd kv)) q.
 
 (* Python slicing l[i:], l[:j] *)
 Definition py_from {A} (l : list A) (i : Z) : list A := if i <? 0 then skipn (Z.to_nat (Z.max 0 (blen l + i))) l else skipn (Z.to_nat i) l.
 Definition py_to {A} (l : list A) (j : Z) : list A := if j <? 0 then firstn (Z.to_nat (Z.max 0 (blen l + j))) l else firstn (Z.to_nat j) l.
 Definition py_int (v : ostr) : M Z :=
   match v with None => Raise TypeError | Some s => match parse_int s with Some n => Ok n | None => Raise ValueError end end.
-(* _paginate rd.py:525-538; [cands] is the lazily evaluated chain of generators *)
-Definition _paginate {A} (cands : M (list A)) (q : query) : M (list A) :=
+(* _paginate rd.py:525-538 *)
+Definition _paginate {A} (l : list A) (q : query) : M (list A) :=
   '(q1, page) <- pop_single_arg q "page" ;;
   '(_, count) <- pop_single_arg q1 "count" ;;
   let convert (m : M (list A)) : M (list A) := match m with Raise ValueError => Raise BadRequest | Raise KeyError => Raise BadRequest | Raise TypeError => Raise BadRequest | x => x end in
   convert (
-    l <- cands ;;
     l1 <- match page with
           | Some _ => p <- py_int page ;; c <- py_int count ;; Ok (py_from l (p * c))
           | None => Ok l end ;;
@@ -351,41 +351,37 @@ Definition _paginate {A} (cands : M (list A)) (q : query) : M (list A) :=
     | Some _ => c <- py_int count ;; Ok (py_to l1 c)
     | None => Ok l1 end).
 
-(* EndpointLookupInterface.render_get rd.py:549-601 *)
-Definition ep_stage (k : string) (m : matcher * bool) (s : stage) (c : reg) : M bool :=
-  match s with
-  | SHref => or_m (matches m (Some (href c))) (any_m (fun r => matches m (Some (l_href r))) (get_based_links c))
-  | SGeneric => or_m (params_match c k m) (any_m (fun r => _link_matches r k m) (get_based_links c))
-  end.
-Definition ep_lookup (st : rd) (qs : list string) (accept : option Z) : resp :=
+(* EndpointLookupInterface.render_get rd.py:549-605 *)
+Definition ep_keep (c : crit) (r : reg) : bool :=
+  if c_href c then matches (c_m c) (Some (href r)) || existsb (fun l => matches (c_m c) (Some (l_href l))) (get_based_links r)
+  else params_match r (c_key c) (c_m c) || existsb (fun l => _link_matches l (c_key c) (c_m c)) (get_based_links r).
+Definition ep_lookup_regs (regs : list reg) (qs : list string) (accept : option Z) : resp :=
   let q := query_split qs in
-  let cands := filter_m (all_stages (ep_stage (final_key q) (final_matcher q)) (stages_of q)) (get_endpoints st) in
-  match _paginate cands q with
+  match _paginate (filter (fun r => forallb (fun c => ep_keep c r) (criteria_of q)) regs) q with
   | Raise e => Err e
   | Ok l => link_format_to_message accept (map get_host_link l)
   end.
+Definition ep_lookup (st : rd) (qs : list string) (accept : option Z) : resp := ep_lookup_regs (get_endpoints st) qs accept.
 
-(* ResourceLookupInterface.render_get rd.py:608-669 *)
-Definition res_stage (k : string) (m : matcher * bool) (s : stage) (ec : reg * link) : M bool :=
-  let '(e, c) := ec in
-  match s with
-  | SHref => or_m (matches m (Some (l_href c))) (matches m (Some (href e)))
-  | SGeneric => or_m (_link_matches c k m) (params_match e k m)
-  end.
+(* ResourceLookupInterface.render_get rd.py:612-679 *)
+Definition res_keep (c : crit) (ec : reg * link) : bool :=
+  let '(e, l) := ec in
+  if c_href c then matches (c_m c) (Some (l_href l)) || matches (c_m c) (Some (href e))
+  else _link_matches l (c_key c) (c_m c) || params_match e (c_key c) (c_m c).
 Definition last_anchor (l : link) : ostr :=
   match rev (filter (fun kv => String.eqb (fst kv) "anchor") (l_attrs l)) with kv :: _ => snd kv | [] => None end.
 Definition strip_anchor (l : link) : link :=
   if ostr_eqb (last_anchor l) (Some (urljoin (l_href l) "/"))
   then {| l_href := l_href l; l_attrs := filter (fun kv => negb (String.eqb (fst kv) "anchor")) (l_attrs l) |}
   else l.
-Definition res_lookup (st : rd) (qs : list string) (accept : option Z) : resp :=
+Definition res_pairs (regs : list reg) : list (reg * link) := flat_map (fun e => map (fun c => (e, c)) (get_based_links e)) regs.
+Definition res_lookup_regs (regs : list reg) (qs : list string) (accept : option Z) : resp :=
   let q := query_split qs in
-  let pairs := flat_map (fun e => map (fun c => (e, c)) (get_based_links e)) (get_endpoints st) in
-  let cands := l <- filter_m (all_stages (res_stage (final_key q) (final_matcher q)) (stages_of q)) pairs ;; Ok (map snd l) in
-  match _paginate cands q with
+  match _paginate (map snd (filter (fun ec => forallb (fun c => res_keep c ec) (criteria_of q)) (res_pairs regs))) q with
   | Raise e => Err e
   | Ok l => link_format_to_message accept (map strip_anchor l)
   end.
+Definition res_lookup (st : rd) (qs : list string) (accept : option Z) : resp := res_lookup_regs (get_endpoints st) qs accept.
 
 (* ------------------------------------------------------------------ resources *)
 (* DirectoryResource.render_post rd.py:451-468 *)
